@@ -6,6 +6,7 @@ package c02
 
 import (
 	"fmt"
+	"math/big"
 	"os"
 	"path/filepath"
 	"strings"
@@ -108,12 +109,15 @@ func xrefStreamOps(c *hx.Ctx) {
 
 func gridOps(c *hx.Ctx) {
 	r := hx.NewRng(c.Seed ^ 0x6262)
-	cases := [][2]int{{1, 0}, {200, 701}, {1048576, 16383}, {1048576, 7}, {1048577, 7}, {1, 8388607}, {1, 8388608}, {2, 4194304}, {99999999, 0}, {4097, 2047}, {4096, 2048}}
+	cases := [][2]int{{1, 0}, {200, 701}, {1048576, 16383}, {1048576, 7}, {1048577, 7}, {1, 8388607}, {1, 8388608}, {2, 4194304}, {99999999, 0}, {4097, 2047}, {4096, 2048},
+		// row numbers whose product with the column count wraps around in 64-bit arithmetic
+		{9223372036854775807, 1}, {9223372036854775807, 0}, {4611686018427387904, 3}, {4611686018427387904, 1}, {3074457345618258603, 2},
+		{6148914691236517206, 2}, {2305843009213693952, 7}, {1 << 62, 15}, {(1 << 63) - 1, 701}, {1 << 33, (1 << 31) - 1}}
 	for i := 0; i < c.N(12, 60); i++ {
 		cases = append(cases, [2]int{r.Range(1, 3000000), r.Range(0, 18000)})
 	}
 	for _, rc := range cases {
-		if rc[0]*(rc[1]+1) <= 8<<20 && rc[0]*(rc[1]+1) > 3<<20 {
+		if prod := new(big.Int).Mul(big.NewInt(int64(rc[0])), big.NewInt(int64(rc[1]+1))); prod.Cmp(big.NewInt(8<<20)) <= 0 && prod.Cmp(big.NewInt(3<<20)) > 0 {
 			continue // accepted but hundreds of MiB: not worth allocating in a test
 		}
 		v := "x"
@@ -138,7 +142,47 @@ func gridOps(c *hx.Ctx) {
 	}
 }
 
+// sharedChainOp: every /Pages node lists the next one twice. With n levels the tree has
+// n+1 objects and, if shared subtrees were walked once per path, 2^n pages.
+func sharedChainOp(c *hx.Ctx, levels int) {
+	p := writers.NewPDF("\n")
+	entries := map[int]writers.XEntry{0: {Type: 0, F2: 65535}}
+	var desc []string
+	for o := 1; o <= levels; o++ {
+		entries[o] = writers.XEntry{Type: 1, F1: p.Obj(o, 0, fmt.Sprintf("<< /Type /Pages /Kids [%d 0 R %d 0 R] /Count 2 >>", o+1, o+1))}
+		desc = append(desc, fmt.Sprintf("%d:k%d.%d", o, o+1, o+1))
+	}
+	leaf := levels + 1
+	entries[leaf] = writers.XEntry{Type: 1, F1: p.Obj(leaf, 0, "<< /Type /Page /Parent 1 0 R /MediaBox [0 0 10 10] >>")}
+	desc = append(desc, fmt.Sprintf("%d:p", leaf))
+	cat := leaf + 1
+	entries[cat] = writers.XEntry{Type: 1, F1: p.Obj(cat, 0, "<< /Type /Catalog /Pages 1 0 R >>")}
+	p.XrefTable(entries, fmt.Sprintf("/Root %d 0 R /Size %d", cat, cat+1), -1, " \n")
+	path := filepath.Join(c.OutDir, "c02-chain.pdf")
+	os.WriteFile(path, p.Buf.Bytes(), 0o644)
+	defer os.Remove(path)
+	out := "err"
+	k := map[string]interface{}{"format": "ptree-shared-chain", "levels": levels}
+	c.Current(k)
+	c.Guard("C02/ptree", k, 10, func() {
+		rd, err := reader.Open(path)
+		if err != nil {
+			return
+		}
+		defer rd.Close()
+		if cnt, err := rd.PageCount(); err == nil {
+			out = fmt.Sprintf("ok %d", cnt)
+		}
+	})
+	c.Op(fmt.Sprintf("c02.ptree %s %s", "2,2", strings.Join(desc[1:], ";")), out)
+	c.Count("op-ptree-shared-chain")
+	c.Case(fmt.Sprint("chain", levels), true)
+}
+
 func ptreeOps(c *hx.Ctx) {
+	for _, levels := range []int{3, 12, 34} {
+		sharedChainOp(c, levels)
+	}
 	r := hx.NewRng(c.Seed ^ 0x7373)
 	for i := 0; i < c.N(400, 8000); i++ {
 		n := r.Range(1, 8) // nodes 2..n+1; object 1 is the root
